@@ -155,3 +155,9 @@ def run(ctx):
             ok = ok and bool(ln) and const_int(ln[-1].term[3]) == 2 and ((ln[-1].fact == ("eq", True)) == (ln[-1].term[1] == "Ne"))
         ctx.check(ok, "D3-DEPEND", DN, "invalid-path", "parts != 2 -> Err(Invalid)", "Err(Invalid) is not returned exactly when the ':' split does not give two parts", fn_span(body))
         errprop(ctx, DN, ps, body, rule="D3-ERRPROP", no_effects_after_error=(), floor=2)
+
+    DFS = "<depend::Depend as std::str::FromStr>::from_str"
+    ps = ret_paths(ctx.paths(DFS) or [])
+    if ctx.fx.fn(DFS) is not None:
+        ok = bool(ps) and all(is_call(p.end[1], DN) and strip_refs(call_args(p.end[1])[0]) == ("param", 1) for p in ps)
+        ctx.check(ok, "D3-FROMSTR", DFS, "delegates", "from_str(s) = Depend::new(s)", "FromStr for Depend does not delegate to Depend::new(s)")
